@@ -26,9 +26,9 @@ EXTRA = {
  "C20": " Plus PANIC-type (every request-path panic carries an error or string), REC (recursion cycles tabled), VAL-1 (the call that validates a bias's props is not control dependent on a random draw: violated in processBiases, recorded as a known finding).",
 }
 for _p in ["C01","C03","C04","C05","C07","C08","C09","C11","C12","C13","C14","C15","C16","C17","C18","C19","C20"]:
-    CHECKS[_p] = (E5[0] + ("; plus reference-free SSA rules " + SHORT[_p] if _p in SHORT else "") + ("" if _p == "C09" else "; plus SHR-1/SHR-4 (no request-path write to memory that outlives the request)"),
+    CHECKS[_p] = (E5[0] + ("; plus reference-free SSA rules " + SHORT[_p] if _p in SHORT else "") + ("" if _p == "C09" else ("; plus SHR-1/SHR-4 (no request-path write to memory that outlives the request)" if _p == "C20" else "; plus SHR-H (the handler layer keeps nothing from an earlier request)")),
                   E5[1] + " The anchor set is closed under static callees, and the struct types those functions use are compared field by field (names, types, tags, codec methods) with reference declarations (E5-types)." + EXTRA.get(_p, "") +
-                  ("" if _p == "C09" else " As the property is stated for every request whatever was processed before, SHR-1/SHR-4 (nothing reachable from a handler writes memory that outlives the request) are part of the check.") +
+                  ("" if _p == "C09" else (" As the property is stated for any sequence of requests, SHR-1/SHR-4 (nothing reachable from a handler writes memory that outlives the request) are part of the check." if _p == "C20" else " As the property is stated for every request, SHR-H (the functions of package main write nothing that outlives the request, so the value handed to the library carries nothing over from an earlier one) is part of the check.")) +
                   " Thorough tier: the same obligations, plus a self-test that applies this property's seeded breaking changes and up to four type-preserving mutants per anchored function in memory and records how many the rules report.", "2")
 
 NA = {"C06": "all four clauses are relations between two alternatives or two runs (dominance, equality, permutation and scaling invariance of a nested recursion); no structural necessary condition short of the algorithm's functional correctness implies them. The structural facts they rest on (symmetric qualification, retention of ex-aequo candidates, non-strict intersection guard, ratio form of the concordance) are checked under C05 and reported there, not claimed as a decision of C06."}
